@@ -69,6 +69,13 @@ Release ==
   /\ hist' = Append(hist, StepRec("release", "", s.ex[held.k].id, held.k, ""))
   /\ UNCHANGED <<nin, neng>>
 
+\* the transport breaks for good: every read fails from now on; the handler gives up after its read-error time-out
+Broken ==
+  /\ ~s.closed /\ held.k = 0 /\ held' = held
+  /\ s' = Shut(s)
+  /\ hist' = Append(hist, StepRec("broken", "", "", Pos, ""))
+  /\ UNCHANGED <<nin, neng>>
+
 \* connection_init never arrives in time (only before any init was sent: no race with the timer)
 InitTimeout ==
   /\ Proto = "tws" /\ ~s.closed /\ ~s.inited /\ held' = held
@@ -81,6 +88,7 @@ GenNext == \/ \E sym \in Alphabet : ClientMsg(sym)
            \/ \E k \in KS, what \in {"error", "result"} : EngineEvHold(k, what)
            \/ Release
            \/ InitTimeout
+           \/ Broken
 GenSpec == GenInit /\ [][GenNext]_gvars
 
 Final == s.closed \/ (nin = MaxIn /\ held.k = 0)
